@@ -270,13 +270,14 @@ Inductive sop :=
 | SSnap (h : N) | SXfer (h : N) | SXferQ (h : N) | SBg (h k : N)
 | SPart (h : N) | SHeal | SLoss | SStop (h : N) | SStart (h : N) | SWait
 | SGate (h : N) (on : bool) | SBurst (h : N) (k : nat) (sz : N) | SDrain
-| SQuiesce | SAwake | SFair.
+| SQuiesce | SAwake | SFair
+| SLag (h : N).   (* an idle period without any request, then: is the replica on host h behind? *)
 
 Inductive oline :=
 | LReq (q : bool) (c : oclass) (n : N)
 | LSnap (up : bool) | LXfer (ok : bool) | LBg (n : N)
 | LBurst (busy lim : bool) | LDrain (lim : bool)
-| LQuiesce (q : bool) | LAwake (w : bool) | LFair (c : oclass) | LPlain.
+| LQuiesce (q : bool) | LAwake (w : bool) | LFair (c : oclass) | LPlain | LLag (behind : bool).
 
 Definition done1 (c : oclass) : N := match c with OC => 1 | _ => 0 end.
 
@@ -363,6 +364,24 @@ Definition drain (s : shard) : shard :=
       mkRep (rp_id r) (rp_kind r) (rp_up r) (rp_iso r) false (sh_log s) n2
     else r).
 
+(* every other running reachable member sleeps: nobody sends anything *)
+Definition others_quiesced (s : shard) (h : N) : bool :=
+  forallb (fun r => (rp_id r =? h) || negb (reachable_member r) || n_quiesced (rp_node r)) (sh_reps s).
+
+(* an idle period. A running member that lacks updates gets them from the leader's periodic
+   messages when somebody is awake; a voter that hears nothing times out, campaigns and so wakes
+   the others; a non-voting replica or witness never campaigns: in a sleeping shard it stays behind *)
+Definition lag (s : shard) (h : N) : shard * bool :=
+  match find_rep s h with
+  | Some r =>
+    if reachable_member r && (rp_applied r <? sh_log s) then
+      if is_full r || negb (others_quiesced s h) then
+        (map_reps (if is_full r then wake_component s h else s) (fun x => if rp_id x =? h then set_applied x (sh_log s) else x), false)
+      else (s, true)
+    else (s, false)
+  | None => (s, false)
+  end.
+
 Definition shard_step (s : shard) (o : sop) : shard * oline :=
   match o with
   | SP h k =>
@@ -411,6 +430,7 @@ Definition shard_step (s : shard) (o : sop) : shard * oline :=
     (s1, LQuiesce (sh_quiesce s && all_quiesced s1))
   | SAwake => (s, LAwake (all_awake s))
   | SFair => let '(s1, c) := fair s in (s1, LFair c)
+  | SLag h => let '(s1, b) := lag s h in (s1, LLag b)
   end.
 
 Fixpoint shard_run (s : shard) (ops : list sop) : shard * list oline :=
